@@ -152,6 +152,24 @@ def _loadonce(ck: Checker, rule: str = "C17.loadonce") -> None:
                    "the loaded flag is only set on the in-memory object and never written back to the trie: a persistent (SQLite) index forgets that the directory was loaded", construct=f"{mk.text()} / re-store")
 
 
+def _len_alias_expander(g, fn, h, ik):
+    """text of an expression with loop-locals that are plain `len(<row key>)` copies put back"""
+    lens_ = {}
+    for d_ in g.nodes.values():
+        a_ = d_.ast
+        if d_.kind == "stmt" and isinstance(a_, ast.Assign) and len(a_.targets) == 1 and isinstance(a_.targets[0], ast.Name) and norm(a_.value) == f"len({ik})" and h.id in d_.loops \
+                and len(scope_of(fn).get(a_.targets[0].id)) == 1:
+            lens_[a_.targets[0].id] = f"len({ik})"
+
+    def _nl(x):
+        t_ = norm(x)
+        for k_, v_ in lens_.items():
+            t_ = re.sub(rf"(?<![\\w.]){re.escape(k_)}(?!\\w)", v_, t_)
+        return t_
+
+    return _nl
+
+
 def _accessors(ck: Checker) -> None:
     prog = ck.prog
     gi = prog.func("index.index", "DataIndex.__getitem__")
@@ -271,7 +289,8 @@ def _children(ck: Checker, rule: str = "C17.children") -> None:
             iv = norm(ih.ast.target)
             sl = c.args[0].slice
             if isinstance(it, ast.Call) and call_name(it) == "range" and isinstance(sl, ast.Slice) and sl.lower is None and sl.upper is not None:
-                a = [norm(x) for x in it.args]
+                _nl0 = _len_alias_expander(g, fn, h, ik)
+                a = [_nl0(x) for x in it.args]
                 up = norm(sl.upper)
                 full = a == ["1", f"len({ik})"] and up in (iv, f"-{iv}")
                 full = full or (a in ([f"len({ik}) - 1", "0", "-1"],) and up == iv)
@@ -283,7 +302,7 @@ def _children(ck: Checker, rule: str = "C17.children") -> None:
                     # two or more components): the only guard that may go round it is "shorter than two"
                     short_ = (f"len({ik}) >= 2", f"len({ik}) > 1")
                     r_out = g.reach([d for lab, d in h.succ if lab == "T"], skip_node=lambda x, ih=ih: x.id == ih.id,
-                                    skip_edge=lambda p, l, q: l == "exc" or (p.kind == "test" and l == "F" and norm(p.ast) in short_) or (p.kind == "test" and l == "T" and norm(p.ast) in (f"len({ik}) < 2", f"len({ik}) <= 1")))
+                                    skip_edge=lambda p, l, q: l == "exc" or (p.kind == "test" and l == "F" and _nl0(p.ast) in short_) or (p.kind == "test" and l == "T" and _nl0(p.ast) in (f"len({ik}) < 2", f"len({ik}) <= 1")))
                     if h.id in r_out:
                         ok = False
                         why = f"the prefix loop is skipped for some rows that have a proper prefix (guard other than `len({ik}) >= 2`)"
